@@ -7,6 +7,7 @@ package mpx
 import (
 	"github.com/basecomplextech/baselibrary/async"
 	"github.com/basecomplextech/baselibrary/status"
+	"github.com/basecomplextech/spec/internal/verifpoint"
 	"github.com/basecomplextech/spec/proto/pmpx"
 )
 
@@ -77,6 +78,7 @@ func (c *conn) sendHandle(msg pmpx.Message) status.Status {
 		// Remove and free channel
 		id := msg.ChannelClose().Id()
 
+		verifpoint.Point("conn.send.close", 0, 0, 0)
 		ch, ok := c.channels.Delete(id)
 		if ok {
 			ch.free()
